@@ -1,0 +1,78 @@
+// +build verif
+
+package node
+
+import (
+	"github.com/absolute8511/redcon"
+	"github.com/youzan/ZanRedisDB/common"
+	"github.com/youzan/ZanRedisDB/pkg/wait"
+)
+
+// Verification hooks (compiled only with -tags verif). Add-only; nothing in
+// here is referenced by production code.
+
+// VerifStoreOf returns the KVStore behind a state machine created by
+// NewStateMachine (nil for the empty / log-syncer state machines).
+func VerifStoreOf(sm StateMachine) *KVStore {
+	if kvsm, ok := sm.(*kvStoreSM); ok {
+		return kvsm.store
+	}
+	return nil
+}
+
+// VerifWaitOf returns the wait registry the state machine triggers replies on.
+func VerifWaitOf(sm StateMachine) wait.Wait {
+	if kvsm, ok := sm.(*kvStoreSM); ok {
+		return kvsm.w
+	}
+	return nil
+}
+
+// VerifReadNode builds a KVNode shell that has only the store, the namespace
+// name and the registered handler tables (node_cmd_reg.go registerHandler), so
+// that the real read / scan / merge-read handlers can be invoked with a
+// recording redcon.Conn. The shell has no raft node: write handlers of the
+// table must not be invoked through it (they would propose).
+func VerifReadNode(store *KVStore, fullNS string) *KVNode {
+	nd := &KVNode{
+		store:         store,
+		ns:            fullNS,
+		router:        common.NewCmdRouter(),
+		machineConfig: &MachineConfig{},
+		stopChan:      make(chan struct{}),
+		w:             wait.New(),
+	}
+	nd.registerHandler()
+	return nd
+}
+
+// VerifReadNodeOfSM is VerifReadNode for the store of a state machine; the
+// shell also references the state machine (used by geo handlers).
+func VerifReadNodeOfSM(sm StateMachine, fullNS string) *KVNode {
+	nd := VerifReadNode(VerifStoreOf(sm), fullNS)
+	nd.sm = sm
+	return nd
+}
+
+// VerifInternalHandler returns the apply-side handler registered for a write
+// command (registerHandlers), or false.
+func VerifInternalHandler(sm StateMachine, cmdName string) (func(redcon.Command, int64) (interface{}, error), bool) {
+	kvsm, ok := sm.(*kvStoreSM)
+	if !ok {
+		return nil, false
+	}
+	h, ok := kvsm.router.GetInternalCmdHandler(cmdName)
+	if !ok {
+		return nil, false
+	}
+	return h, true
+}
+
+// VerifHasInternalHandler tells whether the state machine knows the write command.
+func VerifHasInternalHandler(sm StateMachine, cmdName string) bool {
+	_, ok := VerifInternalHandler(sm, cmdName)
+	return ok
+}
+
+// VerifMaxDBBatchCmdNum is the maximum number of commands in one shared write batch.
+const VerifMaxDBBatchCmdNum = maxDBBatchCmdNum
